@@ -81,7 +81,7 @@ func (c *fctx) rangeStmt() []*S {
 	}
 	opts := []opt{}
 	if cfg.Ranges {
-		opts = append(opts, opt{"slice", 5}, opt{"array", 3}, opt{"string", 4}, opt{"map", 3}, opt{"chan", 2}, opt{"int", 4}, opt{"small", 1}, opt{"mapnan", 1}, opt{"bound", 1})
+		opts = append(opts, opt{"slice", 5}, opt{"array", 3}, opt{"string", 4}, opt{"map", 3}, opt{"chan", 2}, opt{"int", 4}, opt{"small", 1}, opt{"mapnan", 1}, opt{"bound", 1}, opt{"assignidx", 1})
 	}
 	if cfg.Consume {
 		opts = append(opts, opt{"iter", 6}, opt{"pull", 3})
@@ -96,6 +96,22 @@ func (c *fctx) rangeStmt() []*S {
 	kind := opts[r.Pick(ws)].name
 	c.g.mark("range_" + kind)
 	c.g.needHelpers = true
+	if kind == "assignidx" {
+		// '=' form whose VALUE operand reads the KEY variable: 'for k, dst[k] = range x' is one
+		// tuple assignment per iteration, the index is taken before k is updated
+		obs := func(e string) string {
+			if c.gen && !c.inLit {
+				return "«Yield»(" + e + ")"
+			}
+			return fmt.Sprintf("vrt.E(%d, %s)", c.g.nextTag(), e)
+		}
+		src := []string{"mks(3)", "[3]int{5, 6, 7}", "mkm(1)", "[]int{4, 9}"}[r.Intn(4)]
+		text := fmt.Sprintf("dst9 := map[int]int{}\nk9 := %d\nfor k9, dst9[k9] = range %s {\n\t%s\n}\n%s", r.Intn(2), src, obs("k9"), obs("dst9[0]*10000 + dst9[1]*100 + dst9[2] + k9"))
+		if r.Chance(1, 3) {
+			text = fmt.Sprintf("var dst9 [8]rune\nk9 := 0\nfor k9, dst9[k9] = range %q {\n\t%s\n}\n%s", "aé€", obs("k9"), obs("int(dst9[0])*3 + int(dst9[1])*5 + int(dst9[3])*7 + k9"))
+		}
+		return []*S{{K: SRaw, ID: c.g.id(), Src: "{\n\t" + replaceAll(text, "\n", "\n\t") + "\n}"}}
+	}
 	if kind == "bound" {
 		// an integer range whose limit is the largest value of its type (run to the end: the
 		// key must not wrap) or does not fit the signed type of the same size (left early)
